@@ -1375,6 +1375,7 @@ package cache
 // init sets the trait up in place and starts the background jobs on the object it was given.
 //@ func (*Trait).init
 //@   props C11
+//@   flag unshared t
 //@   requires t != nil && t.expirationsSet == 0
 //@   requires forall j int :: 0 <= j && j < len(options) ==> options[j] != nil
 //@   ensures [C11.init.janitor] hasJanitor(t) ==> calls("go:(*Trait).janitor") == 1 && arg("go:(*Trait).janitor", 1, 0) == t
